@@ -536,7 +536,15 @@ func instancePhase(cr *checkResult, update bool) {
 			cr.undecided = append(cr.undecided, fmt.Sprintf("UNDECIDED property=%s obligation=build reason=%s", cr.prop, strings.ReplaceAll(err.Error(), "\n", " | ")))
 			return
 		}
-		concrete("instances/generate", "mockery fails on the corpus (a valid input)", err)
+		// mockery failed on the corpus. If it failed while formatting the rendered text, the template produced
+		// something that is not Go: a violation with a concrete input. Any other failure (configuration,
+		// package loading, ...) says nothing about the generated mocks: undecided here, and the business of
+		// the checks of the properties that govern those stages.
+		if strings.Contains(err.Error(), "formatting mock file") || strings.Contains(err.Error(), "can't format mock file") {
+			concrete("instances/generate", "mockery cannot format what the template rendered for the corpus (a valid input): the rendered text is not valid Go", err)
+		} else {
+			cr.undecided = append(cr.undecided, fmt.Sprintf("UNDECIDED property=%s obligation=instances/generate reason=mockery fails on the corpus before any mock is rendered (not a statement about generated mocks): %s", cr.prop, strings.ReplaceAll(tail(err.Error(), 400), "\n", " | ")))
+		}
 		return
 	}
 	pkgs, err := loadTypes(root, variants)
@@ -893,6 +901,14 @@ func compilePhase(cr *checkResult, _ *symex.World) {
 	var outs []outcome
 	try := func(name, input string, vs []instVariant) {
 		root, err := env.generate(vs)
+		if err != nil && !strings.Contains(err.Error(), "formatting mock file") && !strings.Contains(err.Error(), "can't format mock file") {
+			if matchKnown(known, cr.prop, name) == nil {
+				// mockery failed before rendering anything: not a statement about generated files
+				cr.undecided = append(cr.undecided, fmt.Sprintf("UNDECIDED property=%s obligation=%s reason=mockery fails on this input before any file is rendered: %s", cr.prop, name, strings.ReplaceAll(tail(err.Error(), 300), "\n", " | ")))
+				outs = append(outs, outcome{name, "undecided"})
+				return
+			}
+		}
 		if err == nil {
 			_, err = loadTypes(root, vs)
 		}
